@@ -25,8 +25,9 @@ def c02_nonhierarchical_base(what, case):
 
 
 def c17_property_name_instance(what, case):
-    """F12: a propertyNames error (whose recorded instance is a property NAME) is filed at an object's node, the node
-    then takes that string for the instance, and indexing an error-free member of the object raises TypeError"""
+    """F12: a propertyNames error (whose recorded instance is a property NAME) is the LAST error filed at an object's
+    node, the node then takes that string for the instance, and indexing an error-free member of the object raises
+    TypeError (property_name_error_paths = the paths whose last-arrived error is a property-name error)"""
     return (what == "index_error_free_element" and case.get("has_property_name_error") is True
             and all(p.get("out") == "TypeError" and p.get("p") in case.get("property_name_error_paths", [])
                     for p in case.get("index_probes", [])))
